@@ -387,7 +387,7 @@ func RunSoakAttribution(e *Env) {
 		"distinct = soak parameters; non-trivial = every soak (>= 8 goroutines on shared nodes)"
 	R.Assume("every request carries a unique token and per-node payload; a reply identifies the request that caused it")
 	rng := e.Rand(5)
-	nsoak := e.Pick(10, 120)
+	nsoak := e.Pick(24, 600)
 	for i := 0; i < nsoak; i++ {
 		if e.Of > 1 && i%e.Of != e.Batch {
 			continue
@@ -437,7 +437,7 @@ func RunResidue(e *Env) {
 		"during the soak, sampled every few hundred calls: routers <= calls still open in the harness x nodes; distinct = soak parameters"
 	R.Assume("router count is read through the build-tag accessor VerifRouterCount under the channel's own lock; goroutines are attributed by function name in the runtime's dump")
 	rng := e.Rand(18)
-	nsoak := e.Pick(12, 150)
+	nsoak := e.Pick(24, 600)
 	for i := 0; i < nsoak; i++ {
 		if e.Of > 1 && i%e.Of != e.Batch {
 			continue
